@@ -62,6 +62,25 @@ void ob_c15_reshape_plain(const std::array<size_t,RS>& src_, const std::array<in
         OBLIGE("C15.reshape.nothing_when_numel_differs", !static_cast<bool>(r), RS, RD);
     }
 }
+// ---- the same with the new shape given as COMPILE-TIME constants over a run-time source shape (a separate branch of shape_reshape:
+// the constant result is validated against the run-time element count)
+template <size_t RS, size_t... D>
+void ob_c15_reshape_ct_newshape(const std::array<size_t,RS>& src_)
+{
+    const auto src = src_;
+    for_<RS>([&](auto I){ ASSUME(src[I.value] >= 1 && src[I.value] <= 4096); });
+    size_t ns = 1; for_<RS>([&](auto I){ ns *= src[I.value]; });
+    constexpr size_t nd = (D * ... * 1); constexpr long tag = (long)nd * 10 + sizeof...(D);
+    if (ns == nd) {
+        auto r = ix::shape_reshape(src, nmtools_tuple{meta::ct_v<D>...});
+        OBLIGE("C15.reshape.ct_newshape.value_when_numel_equal", nm::has_value(r), RS, tag);
+    } else {
+        auto r = ix::shape_reshape(src, nmtools_tuple{meta::ct_v<D>...});
+        OBLIGE("C15.reshape.ct_newshape.nothing_when_numel_differs", !nm::has_value(r), RS, tag);
+    }
+}
+template void ob_c15_reshape_ct_newshape<1,3,2>(const std::array<size_t,1>&); template void ob_c15_reshape_ct_newshape<2,3,2>(const std::array<size_t,2>&);
+template void ob_c15_reshape_ct_newshape<3,4,3>(const std::array<size_t,3>&); template void ob_c15_reshape_ct_newshape<2,1>(const std::array<size_t,2>&); template void ob_c15_reshape_ct_newshape<2,2,3,2>(const std::array<size_t,2>&);
 // ---- a zero or negative (other than -1) target extent at position P is rejected
 template <size_t RS, size_t RD, size_t P>
 void ob_c15_reshape_bad_extent(const std::array<size_t,RS>& src_, const std::array<int,RD>& dst_)
